@@ -106,6 +106,23 @@ def _idx_from(p):
     return tuple(out)
 
 
+def layout_array(a, layout):
+    """the same logical array in another memory layout"""
+    if layout == "F":
+        return np.asfortranarray(a)
+    if layout == "T":
+        # a transposed view of a C-ordered array
+        return np.ascontiguousarray(a.T).T
+    if layout == "strided":
+        if a.ndim == 0:
+            return a
+        big = np.zeros((*a.shape[:-1], 2 * a.shape[-1] + 1), dtype=a.dtype)
+        view = big[..., 1::2][..., :a.shape[-1]]
+        view[...] = a
+        return view
+    return np.ascontiguousarray(a)
+
+
 def apply_step(step, vals, shared=None):
     """perform one recipe step with pytato; returns the new value"""
     import pytato as pt
@@ -116,7 +133,8 @@ def apply_step(step, vals, shared=None):
         if shared is not None and step["id"] in shared:
             return shared[step["id"]]
         res = pt.make_data_wrapper(
-            np.array(p["data"], dtype=p["dtype"]).reshape(tuple(p["shape"])))
+            layout_array(np.array(p["data"], dtype=p["dtype"]).reshape(
+                tuple(p["shape"])), p.get("layout", "C")))
         if shared is not None:
             shared[step["id"]] = res
         return res
@@ -360,7 +378,9 @@ class _G:
                 data = [rng.randint(-8, 8) / 2 for _ in range(n)]
             return self.try_step({"op": "dw", "args": [],
                                   "p": {"data": data, "dtype": dtype,
-                                        "shape": shape}})
+                                        "shape": shape,
+                                        "layout": rng.choice(
+                                            ["C", "C", "F", "T", "strided"])}})
         if k < 0.8:
             self.nph += 1
             self.nsz += 1
